@@ -800,6 +800,26 @@ def _neutralise(client):
         pass
 
 
+TRANSIENT = (TimeoutError, ConnectionError, OSError)
+
+
+def _attempt(fn, before=None, tries=3):
+    """the verdict is about values, never about timing: a request that ran into a time-out / lost connection
+    (overloaded machine) is repeated; only a request that fails every time is reported"""
+    exc = None
+    for k in range(tries):
+        if before:
+            before()
+        try:
+            return fn(), None, k + 1
+        except Exception as e:
+            exc = e
+            if not isinstance(e, TRANSIENT):
+                return None, e, k + 1
+            _time.sleep(0.3 * (k + 1))
+    return None, exc, tries
+
+
 def _e2e_batch(arg):
     """one rig: node 1 (driver module), node 2 (proxy module in front of it), three clients"""
     seed, n_per_kind, budget = arg
@@ -855,16 +875,15 @@ def _e2e_batch(arg):
                     sent_a, sent_c = _gen_value(kind, rnd, partial=True)
                     ret_a, ret_c = _gen_value(kind, rnd, partial=False)
                     drv.script[kind] = ret_c
-                    del drv.rec[:]
                     rec = {'ev': 'e2e', 'op': 'write', 'kind': kind, 'path': path, 'sent': sent_a, 'prev': prev[kind],
                            'returned': ret_a, 'nrecv': 0, 'received': {'j': 'atom', 'v': '?nothing'},
                            'cache': {'j': 'atom', 'v': '?none'}, 'concrete': repr(sent_c)}
-                    try:
-                        item = c.setParameter(mod, kind, sent_c)
+                    item, e, rec['attempts'] = _attempt(lambda: c.setParameter(mod, kind, sent_c), before=lambda: drv.rec.clear())
+                    if e is None:
                         rec['cache'] = a_tree(kind, item.value) if item.readerror is None else {'j': 'atom', 'v': '?%r' % (item.readerror,)}
-                    except Exception as e:
+                    else:
                         rec['cache'] = {'j': 'atom', 'v': '?raised %r' % (e,)}
-                        if isinstance(e, (TimeoutError, ConnectionError)):
+                        if isinstance(e, TRANSIENT):
                             dead.add((kind, path))
                             slow[path] = slow.get(path, 0) + 1
                     got = [r for r in drv.rec if r[0] == 'w' and r[1] == kind]
@@ -880,12 +899,12 @@ def _e2e_batch(arg):
                 ret_a, ret_c = _gen_value(kind, rnd, partial=False)
                 drv.script[kind] = ret_c
                 rec = {'ev': 'e2e', 'op': 'read', 'kind': kind, 'path': 'direct', 'returned': ret_a}
-                try:
-                    item = c.readParameter(mod, kind)
+                item, e, rec['attempts'] = _attempt(lambda: c.readParameter(mod, kind))
+                if e is None:
                     rec['cache'] = a_tree(kind, item.value) if item.readerror is None else {'j': 'atom', 'v': '?%r' % (item.readerror,)}
-                except Exception as e:
+                else:
                     rec['cache'] = {'j': 'atom', 'v': '?raised %r' % (e,)}
-                    if isinstance(e, (TimeoutError, ConnectionError)):
+                    if isinstance(e, TRANSIENT):
                         dead.add((kind, 'direct'))
                         slow['direct'] = slow.get('direct', 0) + 1
                 prev[kind] = ret_a
@@ -898,13 +917,13 @@ def _e2e_batch(arg):
             drv.script[kind] = exc
             rec = {'ev': 'e2e', 'op': 'readerr', 'kind': kind, 'path': 'direct',
                    'raised': {'cls': type(exc).__name__, 'text': exc.args[0]}}
-            try:
-                item = c.readParameter(mod, kind)
+            item, e, rec['attempts'] = _attempt(lambda: c.readParameter(mod, kind))
+            if e is None:
                 e = item.readerror
                 rec['cache'] = {'cls': type(e).__name__, 'text': e.args[0] if e is not None and len(e.args) == 1 else repr(e)}
-            except Exception as e:
+            else:
                 rec['cache'] = {'cls': '?raised', 'text': repr(e)}
-                if isinstance(e, (TimeoutError, ConnectionError)):
+                if isinstance(e, TRANSIENT):
                     slow['direct'] = slow.get('direct', 0) + 1
             records.append(rec)
             drv.script[kind] = _gen_value(kind, rnd, partial=False)[1]
@@ -1021,12 +1040,12 @@ def run(chk):
     n = 300 if quick else 4000
     traces = pool_map(_random_trace, [(chk.seed * 100003 + i, 40 if quick else 60) for i in range(n)])
     lap('random_traces')
-    nbatch, per_kind = (4, 8) if quick else (16, 150)
+    nbatch, per_kind = (4, 8) if quick else (16, 100)
     e2e = pool_map(_e2e_batch, [(chk.seed * 7919 + i, per_kind, 40 if quick else 500) for i in range(nbatch)])
     aborted = [n['aborted'] for _, n in e2e if n.get('aborted')]
     lap('end_to_end')
     records = [r for recs, _ in e2e for r in recs]
-    e2e_traces = [[{k: v for k, v in r.items() if k != 'concrete'}] for r in records]   # one record = one trace
+    e2e_traces = [[{k: v for k, v in r.items() if k not in ('concrete', 'attempts')}] for r in records]   # one record = one trace
     if e2e and e2e[0][1].get('proxy_factory_errors'):
         chk.violation({'module': 'E2E', 'site': 'proxy factory', 'clause': 'proxy node can be configured'},
                       {'errors': e2e[0][1]['proxy_factory_errors'],
@@ -1093,6 +1112,9 @@ def _truncated(rcv, snt):
 def _diff_shape(r):
     if r['op'] == 'write' and r.get('nrecv') and _truncated(r['received'], r['sent']):
         return 'array truncated to a prefix'
+    c = r.get('cache') or {}
+    if str(c.get('v', c.get('text', ''))).startswith(('?raised Timeout', '?raised Connection', 'Timeout', 'Connection')):
+        return 'no reply in %d attempts' % r.get('attempts', 1)
     return 'other'
 
 
